@@ -266,7 +266,50 @@ def rule_c(ctx):
     raising = [p for p in paths if p.outcome == 'raise']
     if not raising:
         raise AnalysisError('C13.c: allocate_stream has no failing path')
-    # the guard of the raise: a comparison between the attempt counter (a constant on the first iteration) and a bound
+    # form 1: a bounded for-loop over range(<expr>) around the cursor advance
+    for_loops = [n for n in walk_local(alloc.node) if isinstance(n, ast.For) and isinstance(n.iter, ast.Call) and
+                 isinstance(n.iter.func, ast.Name) and n.iter.func.id == 'range' and len(n.iter.args) == 1]
+    if for_loops:
+        def ev(e):
+            if isinstance(e, ast.Constant) and isinstance(e.value, (int, float)):
+                return e.value
+            if isinstance(e, ast.Attribute) and isinstance(e.value, ast.Name) and e.value.id == 'self':
+                return env.get(e.attr)
+            if isinstance(e, ast.Name):
+                return ctx.repo.try_const(alloc.module, e)
+            if isinstance(e, ast.BinOp):
+                a, b = ev(e.left), ev(e.right)
+                if a is None or b is None:
+                    return None
+                ops = {ast.Add: a + b, ast.Sub: a - b, ast.Mult: a * b}
+                for k, v in ops.items():
+                    if isinstance(e.op, k):
+                        return v
+                if isinstance(e.op, ast.FloorDiv):
+                    return a // b
+                if isinstance(e.op, ast.Div):
+                    return a / b
+                if isinstance(e.op, ast.RShift):
+                    return int(a) >> int(b)
+            return None
+        import math
+        val = ev(for_loops[0].iter.args[0])
+        if val is None:
+            raise AnalysisError('C13.c: cannot evaluate the attempt bound %s' % ast.unparse(for_loops[0].iter.args[0]))
+        attempts = math.floor(val)
+        need = (mx + 1) // step
+        ok = attempts >= need
+        rep.add('C13.c', 'StreamControl.allocate_stream / attempt bound', alloc, ok,
+                '%d attempts are permitted, the parity class has %d ids (step %d)' % (attempts, need, step) if ok else
+                'allocation gives up after %d attempts although the parity class has %d ids: it can fail while an id '
+                'of that parity is free' % (attempts, need))
+        advances = [n for n in ast.walk(for_loops[0]) if isinstance(n, ast.Call) and isinstance(n.func, ast.Attribute)
+                    and 'increment' in n.func.attr]
+        rep.add('C13.c', 'StreamControl.allocate_stream / one attempt per advance', alloc, len(advances) == 1,
+                'one cursor advance per iteration' if len(advances) == 1 else
+                '%d cursor advances per counted attempt' % len(advances))
+        return
+    # form 2: a counter compared with a bound; the guard of the raise: a comparison between the attempt counter (a constant on the first iteration) and a bound
     attempts = None
     for p in raising:
         conds = [e for e in p.events if e.kind == 'cond' and not e.data.get('static')]
